@@ -25,6 +25,7 @@ type Features struct {
 	Write      bool // write/1 of small atoms as progress markers
 	Lib        bool // recursive library templates (app/3, mem/2, nat/1, len/2)
 	Strings    bool // double-quoted strings among the terms (they denote lists of the characters a, b, c)
+	Deep       bool // now and then one goal that recurses several thousand levels deep
 }
 
 // Program is a generated case: clauses, dynamic declarations, one query.
@@ -33,6 +34,7 @@ type Program struct {
 	Dynamic   []string   `json:"dynamic,omitempty"` // "d/1"
 	Query     *rt.Term   `json:"query"`
 	ViaAssert bool       `json:"via_assert,omitempty"` // load the clauses with assertz instead of Exec
+	Deep      bool       `json:"deep,omitempty"`       // contains a down/1 goal: the reference needs a larger inference budget
 }
 
 type sig struct {
@@ -46,6 +48,7 @@ type g struct {
 	sigs  []sig
 	nvars int // variables used so far in the current clause / query
 	depth int
+	deep  bool // a down/1 goal has been generated (at most one per program)
 }
 
 // n draws lo..hi nearly uniformly (rapid's IntRange is biased towards small values); shrinks towards lo.
@@ -191,6 +194,12 @@ func (x *g) userCall() *rt.Term {
 }
 
 func (x *g) simpleGoal() *rt.Term {
+	if x.f.Deep && !x.deep && x.n(0, 149, "deep") == 149 { // (rapid favours small values: test for the largest)
+		// a deterministic recursion several thousand levels deep (down/1 is added to the program): what comes after
+		// it - answers, backtracking, cuts, balls - happens on top of a long chain of frames
+		x.deep = true
+		return rt.C("down", rt.I([]int64{4200, 5000, 9000}[x.n(0, 2, "depth")]))
+	}
 	k := x.n(0, 19, "simple")
 	switch {
 	case k < 9:
@@ -597,6 +606,10 @@ func GenProgram(f Features) *rapid.Generator[*Program] {
 			pr.Query = rt.C(",", x.userCall(), pr.Query)
 		}
 		pr.ViaAssert = x.p(30, "viaassert")
+		if x.deep {
+			pr.Deep = true
+			pr.Clauses = append(pr.Clauses, MustParse("down(0)"), MustParse("down(N) :- N > 0, M is N - 1, down(M)"))
+		}
 		return pr
 	})
 }
